@@ -264,3 +264,26 @@ Proof.
           end).
   exact I.
 Qed.
+
+(* what from_blob returns is internally consistent: the global box is the local coverage moved to the block *)
+Definition bdef_shape (b : bdef) : Prop :=
+  bd_cx0 b <= bd_cx1 b /\ bd_cy0 b <= bd_cy1 b /\
+  bd_gx0 b = bd_cx0 b + bd_x b * 256 /\ bd_gy0 b = bd_cy0 b + bd_y b * 256 /\
+  bd_gx1 b = bd_cx1 b + bd_x b * 256 /\ bd_gy1 b = bd_cy1 b + bd_y b * 256 /\ bd_ioff b = bd_toff b + bd_tlen b.
+
+Theorem bdef_from_blob_shape l b : bdef_from_blob l = Ok b -> bdef_shape b.
+Proof.
+  unfold bdef_from_blob.
+  repeat (match goal with
+          | |- obind (take_be ?n ?x) _ = _ -> _ => destruct (take_be n x) as [[? ?]| | |]; cbn [obind]; try discriminate
+          end).
+  destruct (bbox_new_ok (N.min n 8) n2 n3 n4 n5) eqn:Ebb; cbn [negb]; [|discriminate].
+  repeat (match goal with
+          | |- obind (take_be ?n ?x) _ = _ -> _ => destruct (take_be n x) as [[? ?]| | |]; cbn [obind]; try discriminate
+          end).
+  repeat (match goal with |- (if ?c then _ else _) = _ -> _ => destruct c; try discriminate end).
+  intros H; inversion H; subst. unfold bdef_shape. cbn.
+  unfold bbox_new_ok in Ebb. repeat (apply andb_true_iff in Ebb; destruct Ebb as [Ebb ?]).
+  repeat match goal with H : (_ <=? _) = true |- _ => apply N.leb_le in H end.
+  repeat split; try reflexivity; assumption.
+Qed.
